@@ -72,6 +72,14 @@ partial def genExpr (cfg : GenCfg) (d : Nat) : GS Expr := do
     for _ in [0:k] do
       es := (← genExpr cfg (d-1)) :: es
     pure (.chain o e₁ e₂ es)
+  else if cfg.shared && r < 91 then
+    -- several combinations inside one component (wAND)
+    let mk := fun (_ : Unit) => do pure (Expr.comb (← liftG (pick ops3)) (← genExpr cfg (d-1)) (← genExpr cfg (d-1)))
+    let opt := fun (_ : Unit) => do if (← liftG (chance 2 3)) then pure (some (← genText)) else pure (none : Option Str)
+    if (← liftG (chance 3 4)) then
+      pure (.multi2 (← opt ()) (← mk ()) (← opt ()) (← mk ()) (← opt ()))
+    else
+      pure (.multi3 (← opt ()) (← mk ()) (← opt ()) (← mk ()) (← opt ()) (← mk ()) (← opt ()))
   else if cfg.shared then
     let inner := Expr.comb (← liftG (pick ops3)) (← genExpr cfg (d-1)) (← genExpr cfg (d-1))
     let k ← liftG (below 3)
@@ -96,6 +104,8 @@ partial def decorateCombo : Expr → GS Expr
     let l' ← match l with | some t => (do if (← liftG (chance 1 2)) then pure (some (← withParenPhrase t)) else pure (some t)) | none => pure none
     let r' ← match r with | some t => (do if (← liftG (chance 1 2)) then pure (some (← withParenPhrase t)) else pure (some t)) | none => pure none
     pure (.shared l' (← decorateCombo e) r')
+  | .multi2 l a m b r => do pure (.multi2 l (← decorateCombo a) m (← decorateCombo b) r)
+  | .multi3 l a m b n c r => do pure (.multi3 l (← decorateCombo a) m (← decorateCombo b) n (← decorateCombo c) r)
 
 def decorateStmtCombos (s : Stmt) : G Stmt := do
   let g : GS (List Part) := s.parts.mapM fun p => match p with
@@ -127,7 +137,7 @@ def genSimpleParts (cfg : GenCfg) (syms : List Sym) (k : Nat) : GS (List Part) :
     let outer ← if cfg.optOuter then liftG (chance 1 2) else pure true
     -- a `shared` expression directly inside the component parentheses is written without
     -- its own parentheses (the component's parentheses delimit the shared text)
-    let outer := match e with | .shared .. => false | _ => outer
+    let outer := match e with | .shared .. => false | .multi2 .. => false | .multi3 .. => false | _ => outer
     parts := .ann h outer e :: parts
   if cfg.fillers && (← liftG (chance 1 3)) then
     parts := (← genFiller) :: parts
